@@ -1,6 +1,7 @@
 import MindsVerif.Lemmas.DecodeMain
 import MindsVerif.Lemmas.Encode
 import MindsVerif.Lemmas.Codec
+import MindsVerif.Lemmas.FloatLex
 import MindsVerif.Gen.Reserved
 import MindsVerif.Gen.RenderPaths
 /-!
@@ -160,5 +161,60 @@ example : RenderPins.paramstyle = "named" := by decide
 /-! non-vacuity -/
 example : stdLex (renderLiteral false attack ++ [';']) = some (attack, [';']) := by decide
 example : encOK ['a', '\'', 'b'] = true := by decide
+
+/-! ## Round 5: float constants through `Constant.get_string` (`float_to_str`, `Model/FloatPos.lean`)
+
+The library's own text (`to_string()`, also what the fallback hands out) has no exponent form: `float_to_str` prints
+`repr(value)`, and a repr WITH an exponent is rewritten in positional notation via `Decimal`.  `repr(float)` and
+`float(text)` are CPython's (shortest round-trip repr, correctly rounded reading: `float(repr(x)) == x`, trusted); the
+model starts at the repr text.  Proved for every digit string and every exponent: the printed text is ONE `FLOAT`
+token of the three lexers with exactly the printed digits, and it denotes the SAME rational number as the repr — so
+reading it with a correctly rounded `float()` gives the float the repr denotes, i.e. the constant.  Tie:
+`float-print` stream (`floatToStr (repr v)` vs `Constant(v).to_string()`), floats of all magnitudes. -/
+
+/-- **floats, repr with an exponent** (`[-]ip[.fp]e±exp`, any digit strings `ip`, `fp`, any exponent): the printed
+text is `[-]I.F` with `I`, `F` the digit strings of `positionalParts`; `I.F` is one FLOAT token in every dialect; and
+`I.F` denotes `ip.fp × 10^±exp` exactly (`m / 10^s` with `m = dv (I ++ F)`, `s = |F|`, cross-multiplied) -/
+theorem C07_float_positional (x : FloatPos.Sci) (d : Dialect)
+    (hip : x.ip.all FloatPos.isDig = true) (hfp : x.fp.all FloatPos.isDig = true) :
+    FloatPos.positional x =
+      (if x.neg then ['-'] else []) ++ (FloatPos.positionalParts x).1 ++ '.' :: (FloatPos.positionalParts x).2 ∧
+    lexNumber d ((FloatPos.positionalParts x).1 ++ '.' :: (FloatPos.positionalParts x).2) =
+      some (.dec (FloatPos.positionalParts x).1 (FloatPos.positionalParts x).2, []) ∧
+    (x.expNeg = false →
+      digitsValue ((FloatPos.positionalParts x).1 ++ (FloatPos.positionalParts x).2) * 10 ^ x.fp.length =
+        digitsValue (x.ip ++ x.fp) * 10 ^ x.exp * 10 ^ (FloatPos.positionalParts x).2.length) ∧
+    (x.expNeg = true →
+      digitsValue ((FloatPos.positionalParts x).1 ++ (FloatPos.positionalParts x).2) * 10 ^ (x.fp.length + x.exp) =
+        digitsValue (x.ip ++ x.fp) * 10 ^ (FloatPos.positionalParts x).2.length) := by
+  obtain ⟨h1, h2, h3, h4⟩ := FloatPos.positional_shape x hip hfp
+  obtain ⟨v1, v2⟩ := FloatPos.positional_value x
+  refine ⟨rfl, ?_, v1, v2⟩
+  exact FloatPos.lexNumber_dec d _ _ h1 h2 (by simpa [List.all_eq_true, FloatPos.isDig] using h3)
+    (by simpa [List.all_eq_true, FloatPos.isDig] using h4)
+
+/-- a repr without exponent is printed as it is -/
+theorem C07_float_plain (r : List Char) (h : FloatPos.hasExp r = false) : FloatPos.floatToStr r = r := by
+  simp [FloatPos.floatToStr, h]
+
+/-- the model on reprs of every kind (tiny, huge, negative, no fraction digits, denormal) -/
+example : FloatPos.floatToStr "1.5e-07".toList = "0.00000015".toList ∧
+    FloatPos.floatToStr "1e-05".toList = "0.00001".toList ∧
+    FloatPos.floatToStr "1e+16".toList = "10000000000000000.0".toList ∧
+    FloatPos.floatToStr "-2.5e+20".toList = "-250000000000000000000.0".toList ∧
+    FloatPos.floatToStr "1.2345678e-05".toList = "0.000012345678".toList ∧
+    FloatPos.floatToStr "1.7976931348623157e+308".toList =
+      ("17976931348623157".toList ++ List.replicate 292 '0' ++ ".0".toList) ∧
+    FloatPos.floatToStr "5e-324".toList = ("0.".toList ++ List.replicate 323 '0' ++ "5".toList) ∧
+    FloatPos.floatToStr "1234.5678".toList = "1234.5678".toList := by decide +kernel
+
+/-- non-vacuity of `C07_float_positional` and what a printer with a fixed number of decimals (the class of the
+escaped change: `format(value, 'f')` keeps six) does to `1.5e-07`: `0.000000` denotes 0, the repr 15 / 10^8 -/
+theorem C07_witness_float_fixed_decimals :
+    FloatPos.parseSci "1.5e-07".toList = some ⟨false, ['1'], ['5'], true, 7⟩ ∧
+    FloatPos.positionalParts ⟨false, ['1'], ['5'], true, 7⟩ = (['0'], "00000015".toList) ∧
+    digitsValue (['0'] ++ "00000015".toList) * 10 ^ (1 + 7) = digitsValue (['1'] ++ ['5']) * 10 ^ 8 ∧
+    ¬ (digitsValue (['0'] ++ "000000".toList) * 10 ^ (1 + 7) = digitsValue (['1'] ++ ['5']) * 10 ^ 6) := by
+  decide +kernel
 
 end MindsVerif.Props.C07
